@@ -15,12 +15,12 @@ CONSTANTS
   LoadResults = {"ok", "notfound"}
   SaveResults = {TRUE}
   Jumps = {1}
-  MaxTicks = 3
+  MaxTicks = 4
   MaxStarts = 8
   MaxVer = 8
   MaxEnt = 8
   MaxPurges = 0
-  MaxKills = 0
+  MaxKills = 2
   MaxDrops = 0
   UnnamedPurge = FALSE
   ResumeRelooks = TRUE
